@@ -264,6 +264,46 @@ def trace (cfg : Cfg σ) (s : St σ) : List Op → List (Option Out × St σ)
   | [] => []
   | op :: ops => applyOp cfg s op :: trace cfg (applyOp cfg s op).2 ops
 
+/-! ### the compressing final step of the fixed-window roller, as it is
+
+`Compression::compress` for gzip / zstd is three fallible steps: `File::open(src)`;
+`File::create(dst)` + copy + `finish()` (slot `base` now holds the compressed segment);
+`fs::remove_file(src)`. The shared `Roller.fixedWindowRoll` treats it as one atomic step. Here the
+last sub-step can fail on its own (fault index `count`, the hook `rotate_point(u32::MAX - 1)`
+between the copy and `remove_file`): the roller returns `Err` although slot `base` already holds
+the segment and the log file is still there. `leavesCopy = true` is the code as it is: the archive
+copy stays (finding `C05/compress-failure-duplicates`: the appender goes on appending to the log
+file and the next rotation archives the same records again). `leavesCopy = false` is the intended
+repair (remove the destination when `compress` fails). -/
+
+/-- what the driver uses: `true` = the code as it is; to be flipped to `false` when /repo removes
+the destination on a failed compress -/
+def compressLeavesCopyDefault : Bool := false
+
+def fixedWindowRollC (leavesCopy : Bool) (r : Log4rs.Roller.RollerCfg) (file : Path) (fault : Nat → Bool) (d : Disk) :
+    Except FsErr Disk × Disk :=
+  if r.count = 0 then Log4rs.Roller.fixedWindowRoll r file fault d else
+  match r.comp with
+  | .none => Log4rs.Roller.fixedWindowRoll r file fault d
+  | _ =>
+    match Log4rs.Roller.fixedWindowRoll r file fault d, d.get? file with
+    | (.ok x, d'), some c =>
+      if fault r.count then
+        -- copy written, `remove_file(src)` not executed
+        (.error (.injected r.count),
+          if leavesCopy then d'.set file c else (d'.set file c).erase (r.nameOf r.base))
+      else (.ok x, d')
+    | e, _ => e
+
+/-- a roller that, when fault index `late` is set, runs `inner` without faults and then reports
+`Err` although the work is done (the harness's roller wrapper `g!record`) -/
+def lateRoll (inner : RollFn) (late : Nat) : RollFn := fun p f d =>
+  if f late then
+    match inner p (fun _ => false) d with
+    | (.ok _, d') => (.error (.injected late), d')
+    | e => e
+  else inner p f d
+
 /-- histories that also contain appends whose encoder fails -/
 inductive XOp where
   | op (o : Op)
